@@ -1,0 +1,19 @@
+//go:build verif
+
+// Contracts for gzv (contract-based deductive verification, /verif). Comment-only file.
+package pathvar
+
+// C09: WithVars returns a NEW request, derived from r, whose context carries exactly the given variables under the package's
+// key - it never edits a variable map that r already carries (pvBase / pvVars: the ghost view the router's contracts use)
+//@ func WithVars
+//@   property C09
+//@   ghost at entry: nr = nil
+//@   ghost at after WithContext#0: nr = ret
+//@   call WithValue#0: assert arg_key == pathVars && arg_val == boxed(params)
+//@   call WithContext#0: assert arg_recv == r
+//@   ghost at returned#0: pvBase[ret] = r
+//@   ghost at returned#0: pvVars[ret] = params
+//@   ensures result != nil && pvBase[result] == r && pvVars[result] == params
+//@   ensures_local result == nr
+//@   modifies pvBase[result], pvVars[result]
+//@   allocates
